@@ -246,14 +246,20 @@ def _dispatcher_and_serial(project, st):
     the serial arm: returns (caller Func, If node, arm statements of the
     serial side, stage-call arm label)."""
     for caller, call in common.callers_of(project, st.func):
+        # the innermost two-armed `if` around the call decides between the stage and its sibling (an enclosing
+        # `if nothing_to_do: return` / `else:` is not the choice)
+        cands = []
         for n in own_nodes(caller.node):
             if isinstance(n, ast.If):
                 in_body = any(c is call for s in n.body for c in ast.walk(s))
                 in_else = any(c is call for s in n.orelse for c in ast.walk(s))
                 if in_body and n.orelse:
-                    return caller, n, n.orelse
+                    cands.append((sum(1 for _ in ast.walk(n)), n, n.orelse))
                 if in_else and n.body:
-                    return caller, n, n.body
+                    cands.append((sum(1 for _ in ast.walk(n)), n, n.body))
+        if cands:
+            _size, n, arm = min(cands, key=lambda c: c[0])
+            return caller, n, arm
     return None, None, None
 
 
